@@ -655,4 +655,264 @@ theorem cinv_run {cfg : Cfg} {s0 : St} (sched : List Nat) : ∀ {c : Conc}, CInv
   | nil => intro c h; exact h
   | cons i is ih => intro c h; exact ih (cinv_step h i)
 
+/-! ### every finished schedule is a merge of the thread programs -/
+
+/-- `out` is an interleaving of the lists `ls` (each element tagged with the index of its list) -/
+inductive Interleave {α : Type} : List (List α) → List (Nat × α) → Prop
+  | nil {ls : List (List α)} (h : ls.all List.isEmpty = true) : Interleave ls []
+  | cons {ls : List (List α)} {i : Nat} {x : α} {rest : List α} {out : List (Nat × α)}
+      (h : ls[i]? = some (x :: rest)) (t : Interleave (ls.set i rest) out) : Interleave ls ((i, x) :: out)
+
+theorem totalJobs_empty {α : Type} : ∀ (ls : List (List α)), ls.all List.isEmpty = true → totalJobs ls = 0 := by
+  intro ls
+  induction ls with
+  | nil => intro _; rfl
+  | cons l ls ih =>
+    intro h
+    simp only [List.all_cons, Bool.and_eq_true] at h
+    have hl : l = [] := by cases l with
+      | nil => rfl
+      | cons _ _ => simp at h
+    have := ih h.2
+    simp only [totalJobs, List.map_cons, List.sum_cons] at this ⊢
+    simp [hl, this]
+
+theorem totalJobs_set {α : Type} : ∀ (ls : List (List α)) (i : Nat) (x : α) (rest : List α),
+    ls[i]? = some (x :: rest) → totalJobs ls = totalJobs (ls.set i rest) + 1 := by
+  intro ls
+  induction ls with
+  | nil => intro i x rest h; simp at h
+  | cons l ls ih =>
+    intro i x rest h
+    cases i with
+    | zero =>
+      simp only [List.getElem?_cons_zero, Option.some.injEq] at h
+      subst h
+      simp only [totalJobs, List.set_cons_zero, List.map_cons, List.sum_cons, List.length_cons]
+      omega
+    | succ k =>
+      simp only [List.getElem?_cons_succ] at h
+      have := ih k x rest h
+      simp only [totalJobs, List.set_cons_succ, List.map_cons, List.sum_cons] at this ⊢
+      omega
+
+theorem Interleave.length {α : Type} {ls : List (List α)} {out : List (Nat × α)} (h : Interleave ls out) :
+    out.length = totalJobs ls := by
+  induction h with
+  | nil h => simp [totalJobs_empty _ h]
+  | cons h _ ih => rw [totalJobs_set _ _ _ _ h, List.length_cons, ih]
+
+theorem Interleave.mem_merges {α : Type} {ls : List (List α)} {out : List (Nat × α)} (h : Interleave ls out) :
+    ∀ fuel, out.length ≤ fuel → out ∈ merges fuel ls := by
+  induction h with
+  | nil h => intro fuel _; cases fuel <;> simp [merges, h]
+  | @cons ls i x rest out h _ ih =>
+    intro fuel hf
+    cases fuel with
+    | zero => simp at hf
+    | succ f =>
+      have hi : i < ls.length := by
+        rcases Nat.lt_or_ge i ls.length with hlt | hge
+        · exact hlt
+        · rw [List.getElem?_eq_none hge] at h; cases h
+      have hne : ls.all List.isEmpty = false := by
+        cases hall : ls.all List.isEmpty with
+        | false => rfl
+        | true =>
+          rw [List.all_eq_true] at hall
+          have hm : (x :: rest) ∈ ls := List.mem_of_getElem? h
+          have := hall _ hm
+          simp at this
+      unfold merges
+      simp only [hne, Bool.false_eq_true, if_false, List.mem_flatMap, List.mem_range]
+      refine ⟨i, hi, ?_⟩
+      simp only [h, List.mem_map]
+      exact ⟨out, ih f (by simp only [List.length_cons] at hf; omega), rfl⟩
+
+/-- between its two steps a thread still has the job it is executing at the head of its list -/
+def HeadOk (th : Thread) : Prop :=
+  match th.loc with
+  | none => True
+  | some (.acceptGot w b _) => ∃ rest, th.jobs = .accept w b :: rest
+  | some (.eventGot e _) => ∃ rest, th.jobs = .event e :: rest
+
+/-- the completed jobs (in completion order, tagged with their threads) followed by any
+    interleaving of what the threads still have to do are an interleaving of the programs -/
+structure MInv (progs : List (List Job)) (threads : List Thread) (done : List (Job × LogE)) : Prop where
+  ord : ∃ tord : List (Nat × Job), tord.map (·.2) = done.reverse.map (·.1) ∧
+        ∀ out, Interleave (threads.map (·.jobs)) out → Interleave progs (tord ++ out)
+  head : ∀ (i : Nat) (th : Thread), threads[i]? = some th → HeadOk th
+
+theorem map_set_same {α β : Type} (f : α → β) (l : List α) (i : Nat) (a a' : α) (h : l[i]? = some a)
+    (hf : f a' = f a) : (l.set i a').map f = l.map f := by
+  have hi : i < l.length := by
+    rcases Nat.lt_or_ge i l.length with hlt | hge
+    · exact hlt
+    · rw [List.getElem?_eq_none hge] at h; cases h
+  rw [List.map_set, hf]
+  apply List.ext_getElem?
+  intro k
+  by_cases hk : i = k
+  · subst hk
+    rw [List.getElem?_set_self (by simpa using hi)]
+    simp [List.getElem?_map, h]
+  · rw [List.getElem?_set_ne hk]
+
+theorem minv_start (progs : List (List Job)) :
+    MInv progs (progs.map (fun js => ({ jobs := js, loc := none } : Thread))) [] := by
+  refine ⟨⟨[], rfl, ?_⟩, ?_⟩
+  · intro out h
+    simpa [List.map_map, Function.comp_def] using h
+  · intro i th h
+    simp only [List.getElem?_map] at h
+    cases hp : progs[i]? with
+    | none => simp [hp] at h
+    | some js =>
+      simp only [hp, Option.map_some, Option.some.injEq] at h
+      subst h
+      simp [HeadOk]
+
+theorem minv_keep {progs : List (List Job)} {threads : List Thread} {done : List (Job × LogE)} {i : Nat}
+    {th th' : Thread} (h : MInv progs threads done) (hth : threads[i]? = some th)
+    (hj : th'.jobs = th.jobs) (hh : HeadOk th') : MInv progs (threads.set i th') done := by
+  have hi : i < threads.length := by
+    rcases Nat.lt_or_ge i threads.length with hlt | hge
+    · exact hlt
+    · rw [List.getElem?_eq_none hge] at hth; cases hth
+  refine ⟨?_, ?_⟩
+  · obtain ⟨tord, ht, hi'⟩ := h.ord
+    refine ⟨tord, ht, ?_⟩
+    intro out ho
+    rw [map_set_same (·.jobs) threads i th th' hth hj] at ho
+    exact hi' out ho
+  · intro k thk hk
+    by_cases hki : i = k
+    · subst hki
+      rw [List.getElem?_set_self hi] at hk
+      cases hk; exact hh
+    · rw [List.getElem?_set_ne hki] at hk
+      exact h.head k thk hk
+
+theorem minv_complete {progs : List (List Job)} {threads : List Thread} {done : List (Job × LogE)} {i : Nat}
+    {th th' : Thread} {j : Job} {rest : List Job} (e : LogE) (h : MInv progs threads done)
+    (hth : threads[i]? = some th) (hj : th.jobs = j :: rest) (hj' : th'.jobs = rest) (hl : th'.loc = none) :
+    MInv progs (threads.set i th') ((j, e) :: done) := by
+  have hi : i < threads.length := by
+    rcases Nat.lt_or_ge i threads.length with hlt | hge
+    · exact hlt
+    · rw [List.getElem?_eq_none hge] at hth; cases hth
+  refine ⟨?_, ?_⟩
+  · obtain ⟨tord, ht, hi'⟩ := h.ord
+    refine ⟨tord ++ [(i, j)], by simp [ht], ?_⟩
+    intro out ho
+    rw [List.map_set, hj'] at ho
+    have hget : (threads.map (·.jobs))[i]? = some (j :: rest) := by
+      simp [List.getElem?_map, hth, hj]
+    have := hi' _ (Interleave.cons hget ho)
+    simpa using this
+  · intro k thk hk
+    by_cases hki : i = k
+    · subst hki
+      rw [List.getElem?_set_self hi] at hk
+      cases hk
+      simp [HeadOk, hl]
+    · rw [List.getElem?_set_ne hki] at hk
+      exact h.head k thk hk
+
+theorem minv_step {progs : List (List Job)} (cfg : Cfg) (mutexed : Bool) {c : Conc}
+    (h : MInv progs c.threads c.done) (i : Nat) :
+    MInv progs (cstep cfg mutexed c i).threads (cstep cfg mutexed c i).done := by
+  unfold cstep
+  cases hth : c.threads[i]? with
+  | none => exact h
+  | some th =>
+    have hhead := h.head i th hth
+    simp only
+    cases hl : th.loc with
+    | none =>
+      simp only
+      cases hj : th.jobs with
+      | nil => exact h
+      | cons j rest =>
+        simp only
+        by_cases hb : (mutexed && c.holder.isSome) = true
+        · simp only [hb, if_true]; exact h
+        · have hb' : (mutexed && c.holder.isSome) = false := by
+            cases hx : (mutexed && c.holder.isSome) with
+            | false => rfl
+            | true => exact absurd hx hb
+          simp only [hb', Bool.false_eq_true, if_false]
+          cases j with
+          | accept w b =>
+            simp only [setThread]
+            refine minv_keep h hth ?_ ?_
+            · exact hj.symm
+            · exact ⟨rest, rfl⟩
+          | event e =>
+            cases hg : eventGet cfg c.st e with
+            | inl d =>
+              simp only [hg, setThread]
+              refine minv_complete _ h hth hj ?_ ?_ <;> rfl
+            | inr v =>
+              simp only [hg, setThread]
+              refine minv_keep h hth ?_ ?_
+              · exact hj.symm
+              · exact ⟨rest, rfl⟩
+    | some l =>
+      unfold HeadOk at hhead
+      rw [hl] at hhead
+      cases l with
+      | acceptGot w b v =>
+        simp only at hhead
+        obtain ⟨rest, hj⟩ := hhead
+        simp only [setThread]
+        refine minv_complete _ h hth hj ?_ ?_
+        · simp [hj]
+        · rfl
+      | eventGot e v =>
+        simp only at hhead
+        obtain ⟨rest, hj⟩ := hhead
+        simp only [setThread]
+        refine minv_complete _ h hth hj ?_ ?_
+        · simp [hj]
+        · rfl
+
+theorem minv_run {progs : List (List Job)} (cfg : Cfg) (mutexed : Bool) (sched : List Nat) : ∀ {c : Conc},
+    MInv progs c.threads c.done →
+    MInv progs (crun cfg mutexed c sched).threads (crun cfg mutexed c sched).done := by
+  induction sched with
+  | nil => intro c h; exact h
+  | cons i is ih => intro c h; exact ih (minv_step cfg mutexed h i)
+
+/-- the state part of `runTagged` is the sequential execution of the untagged jobs -/
+theorem runTagged_state (cfg : Cfg) : ∀ (ord : List (Nat × Job)) (s : St),
+    (runTagged cfg s ord).1 = (seqJobs cfg s (ord.map (·.2))).1 := by
+  intro ord
+  induction ord with
+  | nil => intro s; rfl
+  | cons p ord ih =>
+    intro s
+    obtain ⟨i, j⟩ := p
+    cases j with
+    | accept w b => simp [runTagged, seqJobs, doJob, ih]
+    | event e => simp [runTagged, seqJobs, doJob, ih]
+
+/-- the `Accept` answer recorded in a ghost entry -/
+def answerOf : Job × LogE → Option Bool
+  | (_, .accept _ _ _ ok) => some ok
+  | _ => none
+
+/-- the answers of `runTagged` are the `Accept` answers of the sequential execution, oldest first -/
+theorem runTagged_answers (cfg : Cfg) : ∀ (ord : List (Nat × Job)) (s : St),
+    (runTagged cfg s ord).2.map (·.2) = (seqJobs cfg s (ord.map (·.2))).2.reverse.filterMap answerOf := by
+  intro ord
+  induction ord with
+  | nil => intro s; rfl
+  | cons p ord ih =>
+    intro s
+    obtain ⟨i, j⟩ := p
+    cases j with
+    | accept w b => simp [runTagged, seqJobs, doJob, ih, answerOf]
+    | event e => simp [runTagged, seqJobs, doJob, ih, answerOf, List.filterMap_cons]
+
 end AutoVerif.C06
